@@ -404,6 +404,55 @@ func (s *c20Sess) mutateBlockInner(inner []byte) ([]byte, string) {
 	return m.body, "inner " + m.how
 }
 
+// sameShardMerge: a well-formed merge whose merged body's label is congruent to the target's modulo the number
+// of index lock shards (64): the request must return like any other merge
+func (s *c20Sess) sameShardMerge() {
+	w := s.w
+	var n *wnode
+	for _, x := range w.open() {
+		if x.lm != nil {
+			n = x
+		}
+	}
+	if n == nil {
+		return
+	}
+	var ids []uint64
+	for b := range w.lmBodies(n) {
+		ids = append(ids, b)
+	}
+	if len(ids) == 0 {
+		return
+	}
+	sort.Slice(ids, func(i, j int) bool { return ids[i] < ids[j] })
+	target := ids[w.r.Intn(len(ids))]
+	first := target + 64
+	for first < w.nextSV {
+		first += 64
+	}
+	w.nextSV = first
+	for try := 0; try < 3; try++ {
+		w.lmIngest(n, false)
+		if _, ok := w.lmBodies(n)[first]; ok {
+			break
+		}
+	}
+	bodies := w.lmBodies(n)
+	if _, ok := bodies[first]; !ok || len(bodies[target]) == 0 {
+		return
+	}
+	body, _ := json.Marshal([]uint64{target, first})
+	r, ok := s.send("lm/merge", "POST", "node/"+n.uuid+"/lm/merge", body, fmt.Sprintf("well-formed merge of bodies %d and %d (labels congruent modulo 64)", target, first))
+	if ok && r.OK() {
+		for _, sv := range bodies[first] {
+			n.lm.m[sv] = target
+		}
+		w.log("lm merge [%d %d] at v%d (same index lock shard)", target, first, n.v)
+		s.c.Count("well-formed same-shard merge")
+	}
+	w.settle()
+}
+
 func (s *c20Sess) mutateStream(valid []byte) mutant {
 	fs := parseFrames(valid)
 	if len(fs) == 0 || s.r.Chance(0.25) {
@@ -763,6 +812,7 @@ func (s *c20Sess) run(nMut int) {
 		return
 	}
 	w.settle()
+	s.sameShardMerge()
 	eps := s.catalogue(n)
 	w.commit(n)
 	r := w.must("POST", "node/"+n.uuid+"/newversion", []byte(`{"note":"hostile target"}`))
